@@ -192,6 +192,13 @@ def _molecule(ctx):
     ok, why = full_product_fold(f, b, 'Potential', 'energy', ('sum',))
     rep.check(ok, 'R5', 'molecule-energy-is-sum-over-full-product', where(b), why, why)
     rep.sample('LJShape2::energy: ' + why)
+    # the second spelling of the same sum (`<LJShape2 as Shape>::score`, the molecule-pair score of the Shape interface): sibling
+    # implementations of one quantity must both be the sum over self x other
+    b2 = f.one(self_adt='shape::lj_shape::LJShape2', trait='Shape', name='score')
+    if b2 is not None:
+        rep.saw(b2)
+        ok2, why2 = full_product_fold(f, b2, 'Potential', 'energy', ('sum', 'fold'))
+        rep.check(ok2, 'R5', 'molecule-score-is-sum-over-full-product', where(b2), why2, why2)
 
 
 def _items_source(f, t, op, depth):
